@@ -7,6 +7,7 @@ oracle of its own — counts as a violation of "model = code" for the exit code.
 """
 import json
 import math
+import os
 import re
 import time
 from fractions import Fraction
@@ -34,7 +35,8 @@ ASSUMPTIONS = [
     'go through well-conditioned steps (smooth functions without cancellation, comparisons 1e-6 apart; soft probe, exact=2) with '
     '1e-9 — a difference is DRIFT in both; otherwise (rounding, truncation, text of an inexact float, a possible -0.0, '
     'cancellation; exact=0) 1e-9 and a remaining difference is counted as float noise; non-finite results are outside the model',
-    'no text is a date: workbooks in which dateutil.parser.parse accepted a text are discarded',
+    'no text is a date: workbooks in which a text the code handed to dateutil is a date for the plain strict parser '
+    '(decided by the harness, independently of how the code calls the parser) are discarded',
     'functions that are transcendental / float-only (except at their exact points), IRR/XIRR/XNPV/VDB/YEARFRAC/PI/SQRTPI, '
     'SUMIF(S) and the volatile ones are outside the model: cells whose evaluation calls them are skipped '
     '(the driver answers unsupported:<NAME>); so are fractional powers, times of day, non-ASCII UPPER/LOWER, '
@@ -193,11 +195,15 @@ def real_history(wb, ops, limit=30):
             cls = type(exc).__name__
             return [('X:compile:' + (cls if cls in CRASH_NAMES else 'Other'), None)] * sum(1 for o in ops if o[0] == 'e'), False
         out = []
+        broken = None
         for op in ops:
             if op[0] == 'e':
-                out.append(canon_outcome(ev.evaluate, op[1]))
-            else:
-                ev.set_cell_value(op[1], op[2])
+                out.append((broken, None) if broken else canon_outcome(ev.evaluate, op[1]))
+            elif not broken:
+                try:
+                    ev.set_cell_value(op[1], op[2])
+                except Exception as exc:  # noqa: BLE001 - the model's set_cell_value never raises: an outcome, not a failure
+                    broken = 'X:set_cell_value-raised:' + type(exc).__name__
         return out, _DATEUTIL['hits'] > h0
     except Timeout:
         return None
@@ -1255,7 +1261,7 @@ def run(ctx):
     res = Result()
     rng = ctx.rng
     thorough = ctx.tier == 'thorough'
-    total = 100000 if thorough else 3000
+    total = 100000 if thorough else 2400
     if ctx.widen:
         total = max(total, 6000)
     deadline = ctx.t0 + (23 * 60 if thorough else 105)
@@ -1265,13 +1271,18 @@ def run(ctx):
     res.extra['exact_point_only'] = cov.get('exactpoint', '').split(',')
     res.extra['not_integrated'] = cov.get('not', '').split(',')
     res.rule = ('random workbooks (3-15 cells, 1-3 sheets incl. quoted names, $ spellings, cross-sheet references, ranges, '
-                'defined names) whose formulas are type-directed random nestings over the integrated library with a '
-                'malformed stream (wrong arity, wrong kinds, errors, blanks, ranges, broken text); every cell is evaluated '
-                'by the real code and by the Lean pipeline; a case is non-trivial per (root function, outcome class)')
+                'defined names and texts spelt like them, tables placed across column indices that are multiples of 8, tiny / '
+                'huge magnitudes as cells, literals and conditions, user spellings of numerals (.08, 8., 80E-3), texts with digits '
+                'inside, DATE()/EDATE() results against plain serials, lookup columns with empty and error cells) whose formulas '
+                'are type-directed random nestings over the integrated library with a malformed stream (wrong arity, wrong kinds, '
+                'errors, blanks, ranges, broken text); every cell is evaluated by the real code and by the Lean pipeline; 40 % of the '
+                'workbooks continue with a HISTORY on the same model and evaluator (set_cell_value with type twins / new cells / '
+                'formula cells, scenario inputs outside an aggregated range of formula cells; re-evaluation), compared call by call '
+                'with Model.C04.run on the compiled model; a case is non-trivial per (root function, outcome class)')
 
     items = []
     corpus_dir = common.CORPUS / 'X01'
-    if corpus_dir.exists():
+    if corpus_dir.exists() and os.environ.get('X01_NO_CORPUS') != '1':
         for p in sorted(corpus_dir.glob('*.json')):
             items.append((json.loads(p.read_text()), {}, str(p.name)))
     if ctx.replay:
@@ -1373,6 +1384,32 @@ def run(ctx):
             break
 
     res.count('generated-workbooks', done)
+    # a history step that disagrees: is it the workbook AFTER the sets that disagrees (then it is an ordinary, static
+    # disagreement of that workbook and goes through the same analysis), or only the history?
+    genuine = []
+    for wb, trees, ops, a, real, lean in hdrifts[:60]:
+        static = apply_sets(wb, ops)
+        try:
+            bad, _, _ = disagrees(ctx, static, a)
+        except Exception:  # noqa: BLE001
+            bad = False
+        if not bad:
+            genuine.append((wb, trees, ops, a, real, lean))
+            continue
+        addrs = addrs_of(static)
+        out = real_eval(static, addrs)
+        if out is None:
+            continue
+        lres = lean_eval(ctx, [(static, addrs)])[0]
+        has_array = any(r.startswith('A:') for r, _ in out[0])
+        for x, (rv, cr), (lv, ex, fx) in zip(addrs, out[0], lres):
+            if classify(rv, cr, lv, ex) != 'drift':
+                continue
+            if has_array and rv.startswith('X:runtime') and cr in ('AttributeError', 'ValueError'):
+                res.count('outside:array-valued-cell-read')
+                continue
+            drifts.append((static, trees, x, rv, lv, fx, 'after-history'))
+    genuine += hdrifts[60:]
     seen_roots = {}
     drifting = {(id(wb), a) for wb, _, a, *_ in drifts}
     excused = set()
@@ -1434,21 +1471,12 @@ def run(ctx):
         seen_roots[entry['what']] = seen_roots.get(entry['what'], 0) + 1
         res.drift.append(entry)
         res.violations.append(entry)
-    for wb, trees, ops, a, real, lean in hdrifts[:40]:
-        static = apply_sets(wb, ops)
-        entry = None
-        try:
-            bad, r2, l2 = disagrees(ctx, static, a)
-            if bad:
-                root, sub = blame(ctx, static, trees, a) if trees else ('?', None)
-                if sub is not None and if_array(static, a, sub):
-                    res.count('outside:IF-array-condition')
-                    continue
-                entry = {'what': f'DRIFT model != code at {root} (workbook after the sets of a history)',
-                         'input': {'workbook': static, 'cell': a, 'smallest_subformula': render(sub) if sub else None,
-                                   'root_function': root}, 'expected': describe(l2), 'got': describe(r2)}
-            else:
-                # a genuine history disagreement: drop calls while it persists
+    for n, (wb, trees, ops, a, real, lean) in enumerate(genuine):
+        entry = {'what': 'DRIFT model != code in a HISTORY (unshrunk)', 'input': {'workbook': wb, 'history': ops, 'cell': a},
+                 'expected': describe(lean), 'got': describe(real)}
+        if n < 12:
+            try:
+                # drop calls while the disagreement at the last call persists
                 keep = list(ops)
                 i = 0
                 while i < len(keep) - 1 and len(keep) > 1:
@@ -1470,18 +1498,11 @@ def run(ctx):
                          'input': {'workbook': {k: v for k, v in wb.items() if k != 'history'}, 'history': keep,
                                    'cell': a, 'formula': wb['cells'].get(a, wb['cells'].get(a.rsplit('!', 1)[-1]))},
                          'expected': describe(ll), 'got': describe(rr)}
-        except Exception as exc:  # noqa: BLE001
-            entry = {'what': 'DRIFT model != code in a HISTORY (unshrunk)', 'input': {'workbook': wb, 'history': ops, 'cell': a},
-                     'expected': describe(lean), 'got': describe(real), 'shrink_error': repr(exc)}
+            except Exception as exc:  # noqa: BLE001
+                entry['shrink_error'] = repr(exc)
         seen_roots[entry['what']] = seen_roots.get(entry['what'], 0) + 1
         res.drift.append(entry)
         res.violations.append(entry)
-    if len(hdrifts) > 40:
-        for wb, trees, ops, a, real, lean in hdrifts[40:]:
-            e = {'what': 'DRIFT model != code in a HISTORY (unshrunk)', 'input': {'workbook': wb, 'history': ops, 'cell': a},
-                 'expected': describe(lean), 'got': describe(real)}
-            res.drift.append(e)
-            res.violations.append(e)
     if drifts or hdrifts:
         res.notes.append(f'{len(drifts)} disagreeing cells, {len(hdrifts)} disagreeing histories; by kind: {seen_roots}')
         for e in res.drift[:8]:
